@@ -339,7 +339,13 @@ func visitInstr(fr *frame, instr ssa.Instruction) continuation {
 		fr.env[instr] = fr.get(instr.Iter).(iter).next()
 
 	case *ssa.FieldAddr:
-		fr.env[instr] = &(*fr.get(instr.X).(*value)).(structure)[instr.Field]
+		base := fr.get(instr.X).(*value)
+		if w, ok := ex.ghost["watch"].(map[*value]bool); ok && w[base] {
+			if nm, wr, skip := fieldAccessInfo(instr); !skip {
+				ex.logAccess(base, nm, wr)
+			}
+		}
+		fr.env[instr] = &(*base).(structure)[instr.Field]
 
 	case *ssa.Field:
 		fr.env[instr] = fr.get(instr.X).(structure)[instr.Field]
@@ -953,4 +959,37 @@ func originStack() string {
 		out = append(out, fn+"@"+loc)
 	}
 	return strings.Join(out, " < ")
+}
+
+type fieldAccT struct {
+	name  string
+	write bool
+	skip  bool
+}
+
+var fieldAccCache = map[*ssa.FieldAddr]fieldAccT{}
+
+// fieldAccessInfo classifies a FieldAddr: the field's qualified name, whether
+// the address is stored through (a write), and whether it is a synchronisation
+// object itself (skipped).
+func fieldAccessInfo(instr *ssa.FieldAddr) (string, bool, bool) {
+	if r, ok := fieldAccCache[instr]; ok {
+		return r.name, r.write, r.skip
+	}
+	st := mustDeref(instr.X.Type()).Underlying().(*types.Struct)
+	f := st.Field(instr.Field)
+	r := fieldAccT{name: mustDeref(instr.X.Type()).String() + "." + f.Name()}
+	ft := f.Type().String()
+	if strings.HasPrefix(ft, "sync.") {
+		r.skip = true
+	}
+	if refs := instr.Referrers(); refs != nil {
+		for _, u := range *refs {
+			if st, ok := u.(*ssa.Store); ok && st.Addr == instr {
+				r.write = true
+			}
+		}
+	}
+	fieldAccCache[instr] = r
+	return r.name, r.write, r.skip
 }
